@@ -159,9 +159,8 @@ func (fc *FuncCtx) verifyBody(short string) {
 		// lock-free accessor: the lock of the object it is handed is held on entry (checked at every call site)
 		for pi, lock := range fc.guardAcc[fn] {
 			if pi < 0 {
-				dot := strings.LastIndex(lock, ".")
-				if lt := fc.eng.lookupType(fnPkgPath(fn), lock[:dot]); lt != nil {
-					key := "L!O!" + typeKey(lt) + "." + lock[dot+1:]
+				if lt, lf, _ := fc.eng.resolveForeignLock(lock); lt != nil {
+					key := "L!O!" + typeKey(lt) + "." + lf
 					ref := fc.u.fresh("flk", "Int")
 					cur := fc.compTerm(st, key, "(Array Int Bool)")
 					fc.setComp(st, key, "(Array Int Bool)", "(store "+cur+" "+ref+" true)")
